@@ -343,6 +343,17 @@ pub fn check_plan(mon: &mut Mon, s: &Scenario, robot: &KinematicsWithShape, path
             mon.violation(&format!("waypoint-collides:{}:{}", flag_names(w.flags), s.layout), "a waypoint of a successful plan is reported colliding", detail("collision-free", json!({"index": k})));
             break;
         }
+        // "at the configured safety distances": every eighth waypoint (and the first and last) is also judged by the
+        // brute-force oracle with the meshes placed by the reference chain and the table read in either key order
+        if k % 8 == 0 || k + 1 == path.len() {
+            let o = s.cell.oracle(&w.joints, &s.cell.safety);
+            mon.count("waypoints_cross_checked_geometrically");
+            if let Some(pair) = o.set(Verdict::Colliding).iter().next() {
+                ok = false;
+                mon.violation(&format!("waypoint-violates-a-configured-distance:{}", crate::props::c10::category(pair.0, pair.1)), "a waypoint of a successful plan violates a configured safety distance (brute-force oracle), although the robot reports it free", detail("collision-free-geometric", json!({"index": k, "pair": [pair.0, pair.1], "required": s.cell.safety.lookup(pair.0, pair.1)})));
+                break;
+            }
+        }
         if !cons.compliant(&w.joints) {
             ok = false;
             mon.violation("waypoint-out-of-limits", "a waypoint of a successful plan is outside the joint limits", detail("limits", json!({"index": k})));
